@@ -175,3 +175,7 @@ Proof.
     + cbn [error_or_nil_is_nil]. cbn [items] in Hi. rewrite Hi.
       destruct (items st acc ++ flat_map (items st) args); split; intro; congruence.
 Qed.
+
+(* wrapping what Wrap returned changes nothing: neither the value nor the store *)
+Lemma wrap_idem st v : let '(st1, r1) := wrap st v in wrap st1 r1 = (st1, r1).
+Proof. destruct v; reflexivity. Qed.
